@@ -28,6 +28,7 @@ package task
 //@   props C13
 //@   requires ts != nil && ts.backgroundSem != nil && do != nil
 //@   ensures[C13] semHeld == old(semHeld)
+//@   ensures[C13] gocount() == 1 ==> atgo(semHeld) == old(semHeld) + 1
 //@   ensures[C13] !running(done)
 //@   ensures[C13] gocount() <= 1 && (locked(ts.prioritizedTasks) > 0 ==> gocount() == 0)
 //@   ensures[C13] gocount() == 1 ==> ch == locked(ts.prioritizedTaskStartNotify)
